@@ -365,3 +365,257 @@ func stalePath(outerLocals, hi int, hiHow string, innerLocals int) []Lvl {
 		{Kind: "lua", Locals: innerLocals, Params: 1, How: "call"},
 	}
 }
+
+// wrappedCallee builds the callee kinds in which a Lua function stands between the call and a host
+// function g (g leaves `junk` values, then its results, and returns the count of results):
+//
+//	luatail  return g(a, ...)                      tail call: all of g's results
+//	luafix   local r0 .. r(p-1) = g(...)           OP_CALL with a fixed result count: g produces one value more
+//	         return r0 .. r(p-1)                   or fewer than the p asked for (truncated / nil-padded)
+//	luapre   return 7, g(...)                      an open result list after a fixed value
+//	reenter  calls a host function that works on its own list, fills temporaries, returns constants
+//
+// It returns the function and the values the call must produce.
+func wrappedCallee(L *lua.LState, kind string, junk, produced int, fails bool) (lua.LValue, []int) {
+	load := func(src string, up lua.LValue) lua.LValue {
+		f, err := L.LoadString(src)
+		if err != nil {
+			panic(fmt.Sprint(err, "\n", src))
+		}
+		L.Push(f)
+		L.Push(up)
+		L.Call(1, 1)
+		fn := L.Get(-1)
+		L.Pop(1)
+		return fn
+	}
+	mk := func(vals []int) lua.LValue {
+		return L.NewFunction(func(L *lua.LState) int {
+			for i := 0; i < junk; i++ {
+				L.Push(lua.LNumber(800 + i))
+			}
+			if fails {
+				L.RaiseError("callee failed")
+			}
+			for _, v := range vals {
+				L.Push(valGo(v))
+			}
+			return len(vals)
+		})
+	}
+	results := producedN(produced)
+	switch kind {
+	case "luatail":
+		return load("local g = ...\nreturn function(a, ...) local j0, j1 = 1, 2; return g(a, ...) end", mk(results)), results
+	case "luafix":
+		n := produced + junk%3 - 1 // what g produces: one fewer, as many, one more
+		if n < 0 {
+			n = 0
+		}
+		gres := producedN(n)
+		want := make([]int, produced)
+		copy(want, gres)
+		rs := make([]string, produced)
+		for i := range rs {
+			rs[i] = fmt.Sprintf("r%d", i)
+		}
+		if produced == 0 {
+			return load("local g = ...\nreturn function(...) local j0 = 1; g(...); local t = {1, 2, 3, 4, 5} end", mk(gres)), want
+		}
+		l := strings.Join(rs, ", ")
+		return load("local g = ...\nreturn function(...) local j0 = 1; local "+l+" = g(...); local t = {1, 2, 3, 4, 5}; return "+l+" end", mk(gres)), want
+	case "luapre":
+		return load("local g = ...\nreturn function(...) local j0 = 1; return 7, g(...) end", mk(results)), append([]int{7}, results...)
+	case "reenter":
+		sub := L.NewFunction(func(L *lua.LState) int {
+			L.SetTop(7)
+			L.Insert(lua.LNumber(5), 2)
+			L.Pop(3)
+			L.Replace(1, lua.LNumber(31))
+			return 2
+		})
+		body := "local sub = ...\nreturn function(...) local a, b = sub(1, 2, 3); local t = {1, 2, 3, 4, 5, 6, 7, 8, a, b}\n"
+		if fails {
+			body += "  error('callee failed')\n"
+		}
+		return load(body+"  return "+strings.Join(luaArgs(results), ", ")+"\nend", sub), results
+	}
+	panic("bad wrapped callee " + kind)
+}
+
+func isWrapped(kind string) bool {
+	return kind == "luatail" || kind == "luafix" || kind == "luapre" || kind == "reenter"
+}
+
+// errHandler builds the error handler of a protected call: go | lua return "handled:" .. msg-type,
+// failing raises itself. *calls counts the invocations.
+func errHandler(L *lua.LState, kind string, calls *int) *lua.LFunction {
+	switch kind {
+	case "go":
+		return L.NewFunction(func(L *lua.LState) int {
+			*calls++
+			if L.GetTop() != 1 {
+				*calls += 100
+			}
+			L.Push(lua.LNumber(1)) // junk below the result
+			L.Push(lua.LString("handled"))
+			return 1
+		})
+	case "lua":
+		count := L.NewFunction(func(L *lua.LState) int { *calls++; return 0 })
+		f, err := L.LoadString("local count = ...\nreturn function(e, ...) count(); local a, b, c = 1, 2, 3; if select('#', ...) ~= 0 then count() end return 'handled', 'extra' end")
+		if err != nil {
+			panic(err)
+		}
+		L.Push(f)
+		L.Push(count)
+		L.Call(1, 1)
+		fn := L.Get(-1).(*lua.LFunction)
+		L.Pop(1)
+		return fn
+	case "failing":
+		return L.NewFunction(func(L *lua.LState) int {
+			*calls++
+			L.Push(lua.LNumber(2))
+			L.RaiseError("handler failed")
+			return 0
+		})
+	}
+	return nil
+}
+
+// handlerVerdict: what the handler must have seen / produced, "" when all is well.
+func handlerVerdict(kind string, calls int, failed bool, err error) string {
+	if kind == "" {
+		return ""
+	}
+	if !failed {
+		if calls != 0 {
+			return "the error handler ran although the call succeeded"
+		}
+		return ""
+	}
+	if calls != 1 {
+		return fmt.Sprintf("the error handler ran %d times (with one argument) for one error", calls)
+	}
+	if kind == "failing" {
+		return ""
+	}
+	ae, ok := err.(*lua.ApiError)
+	if !ok || ae.Object != lua.LString("handled") {
+		return "the error returned is not the error handler's result"
+	}
+	return ""
+}
+
+// fitPath keeps the recursion levels of a path inside what a fixed registry can hold (a path that
+// overflows the registry never reaches the leaf).
+func fitPath(path []Lvl, reg RegOpt) {
+	budget := 30
+	if reg.Max == 0 && reg.Size <= 128 {
+		budget = 6
+	}
+	for k := range path {
+		if path[k].How != "rec" {
+			continue
+		}
+		if path[k].Rec > budget {
+			path[k].Rec = budget
+		}
+		budget -= path[k].Rec
+		if budget < 1 {
+			budget = 1
+		}
+	}
+}
+
+/* ---------- initCallFrame of a fixed-arity Lua function, through the hook ---------- */
+
+// InitLuaIn: a registry holding Cells (0 = nil) with Stale dead values above the top; a Lua function with
+// NP parameters and NRegs registers is handed NArgs arguments at LocalBase LB.
+type InitLuaIn struct {
+	Kind  string `json:"kind"` // "initlua"
+	Cells []int  `json:"cells"`
+	Stale int    `json:"stale"`
+	LB    int    `json:"lb"`
+	NArgs int    `json:"nargs"`
+	NP    int    `json:"np"`
+	NRegs int    `json:"nregs"`
+	Reg   RegOpt `json:"reg"`
+}
+
+func runInitLua(w *lib.Writer, in InitLuaIn, class string) {
+	o := lua.Options{RegistrySize: in.Reg.Size, RegistryMaxSize: in.Reg.Max, RegistryGrowStep: in.Reg.Grow, SkipOpenLibs: true}
+	L := lua.NewState(o)
+	defer L.Close()
+	e := newCellEnc()
+	for _, v := range in.Cells {
+		L.Push(valGo(v))
+	}
+	// dead values above the top, left the way a calling Lua function leaves them (plain register writes
+	// followed by a lowered top are not available from outside: initCallFrame itself is used for that)
+	for i := 0; i < in.Stale; i++ {
+		L.Push(lua.LNumber(990 + i))
+	}
+	if in.Stale > 0 {
+		lua.VerifInitCallFrame(L, len(in.Cells), 0, 0, 0, false) // top := len(cells), nothing cleared
+	}
+	top := lua.VerifRegTop(L)
+	cells := e.rawRange(L, 0, top)
+	above := e.rawRange(L, top, top+aboveWindow)
+	pad := lua.VerifRegCap(L) - top - len(above)
+	for len(above) > 0 && above[len(above)-1] == "None" {
+		above = above[:len(above)-1]
+		pad++
+	}
+	fault := ""
+	func() {
+		defer func() {
+			if r := recover(); r != nil {
+				fault = fmt.Sprint(r)
+			}
+		}()
+		lua.VerifInitCallFrame(L, in.LB, in.NArgs, in.NP, in.NRegs, false)
+	}()
+	ntop := lua.VerifRegTop(L)
+	n := len(cells) + len(above)
+	if ntop > n {
+		n = ntop
+	}
+	after := e.rawRange(L, 0, n)
+	id := w.Add(lib.Case{Input: in, Observed: map[string]any{"top": ntop, "arr": after}, Class: class,
+		// non-trivial: dead values above the arguments survive above the new frame
+		Nontrivial: in.Stale > 0 && fault == "",
+		Coq:        fmt.Sprintf("CInitLua %s %s %d %s %s %s %s %d %s", lib.CoqList(cells), lib.CoqList(above), pad, z(in.LB), z(in.NArgs), z(in.NP), z(in.NRegs), ntop, lib.CoqList(after))})
+	if fault != "" {
+		if len(fault) > 150 {
+			fault = fault[:150]
+		}
+		w.GoFail(id, "initCallFrame panicked: "+fault)
+	}
+}
+
+func genInitLua(r *lib.Rand) InitLuaIn {
+	in := InitLuaIn{Kind: "initlua", Reg: RegOpt{Size: 128}}
+	n := r.Range(1, 14)
+	for i := 0; i < n; i++ {
+		v := 100 + i
+		if r.Chance(10) {
+			v = 0
+		}
+		in.Cells = append(in.Cells, v)
+	}
+	in.Stale = r.Pick(3, 0, 2, 2, 2, 2, 2, 2, 2)
+	in.LB = r.Range(1, n)
+	in.NArgs = r.Intn(n - in.LB + 1) // the arguments are live cells; what is above them belongs to the caller
+	in.NP = r.Intn(5)
+	in.NRegs = in.NP + r.Intn(8)
+	if r.Chance(15) {
+		// the frame ends exactly at / one off the old top or the end of the dead values
+		in.NRegs = n + in.Stale - in.LB + r.Range(-1, 1)
+		if in.NRegs < in.NP {
+			in.NRegs = in.NP
+		}
+	}
+	return in
+}
